@@ -13,6 +13,14 @@ MOD = 'mc.props.c13'
 TO_NM = {'nm': 1.0, 'um': 1e3, 'm': 1e9, 'angstrom': 0.1}     # independent table: 1 unit = x nm
 UNITS = ['nm', 'um', 'm', 'angstrom']
 OPS = {'add': operator.add, 'subtract': operator.sub, 'multiply': operator.mul, 'divide': operator.truediv, 'power': operator.pow}
+def ac(a, b, **kw):
+    """allclose that answers False (instead of raising) when the library returned an array of another length"""
+    a, b = np.asarray(a), np.asarray(b)
+    if a.ndim and b.ndim and a.shape != b.shape:
+        return False
+    return bool(np.allclose(a, b, **kw))
+
+
 NPOPS = {'add': np.add, 'subtract': np.subtract, 'multiply': np.multiply, 'divide': np.divide, 'power': np.power}
 
 GRIDS = {
@@ -25,8 +33,9 @@ GRIDS = {
 }
 GRIDS['Axum'] = [g * 1000 for g in GRIDS['A']]      # in um these are the same numbers as 'A' in nm: equal arrays, different spectra
 GRIDS['signed'] = GRIDS['nested']                      # same grid, values of both signs
+GRIDS['adjacent'] = [710, 760, 810, 860]              # starts 10 nm above the end of 'A': a gap smaller than either step
 GRIDS['shifted'] = [420, 520, 620, 720]              # union span / step is not an integer
-PAIRS = [('A', 'signed'), ('A', 'shifted'), ('intA', 'nested'), ('intA', 'intnested'), ('A', 'same'), ('A', 'nested'), ('A', 'partial'), ('A', 'disjoint'), ('A', 'nonuniform'), ('nonuniform', 'nested'),
+PAIRS = [('A', 'signed'), ('A', 'adjacent'), ('A', 'shifted'), ('intA', 'nested'), ('intA', 'intnested'), ('A', 'same'), ('A', 'nested'), ('A', 'partial'), ('A', 'disjoint'), ('A', 'nonuniform'), ('nonuniform', 'nested'),
          ('nested', 'A'), ('partial', 'nonuniform')]
 
 
@@ -96,7 +105,7 @@ def phys(s):
 def same_phys(a, b, tol=1e-9):
     wa, va = a
     wb, vb = b
-    return wa.shape == wb.shape and np.allclose(wa, wb, rtol=1e-12, atol=0) and np.allclose(va, vb, rtol=tol, atol=1e-12, equal_nan=True)
+    return wa.shape == wb.shape and ac(wa, wb, rtol=1e-12, atol=0) and ac(va, vb, rtol=tol, atol=1e-12, equal_nan=True)
 
 
 def lin(name, seed, lam, fill, strict):
@@ -148,7 +157,7 @@ def chk_binary(case, acc, seed):
     # grid: uniform, spans the union, at the requested sampling (one extra interval tolerated: ceil() on a rounding tie)
     step = np.diff(wr)
     grid_ok = (len(wr) >= 2 and abs(wr[0] - lo) <= 1e-9 * lo and abs(wr[-1] - hi) <= 1e-9 * hi and
-               np.allclose(step, step[0], rtol=1e-9) and step[0] <= d * (1 + 1e-9))
+               ac(step, step[0], rtol=1e-9) and step[0] <= d * (1 + 1e-9))
     nint = len(wr) - 1
     need = int(np.ceil((hi - lo) / d - 1e-9))
     if grid_ok and nint not in (need, need + 1):
@@ -219,7 +228,7 @@ def chk_commute(case, acc, seed):
         else:
             ends = [GRIDS[n][k] for n in (n1, n2) for k in (0, -1)]
             keep = np.array([all(abs(l - e) > 1e-9 * e for e in ends) for l in p1[0]])
-            ok = np.allclose(p1[0], p2[0], rtol=1e-9) and np.allclose(p1[1][keep], p2[1][keep], rtol=1e-8, atol=1e-12, equal_nan=True)
+            ok = ac(p1[0], p2[0], rtol=1e-9) and ac(p1[1][keep], p2[1][keep], rtol=1e-8, atol=1e-12, equal_nan=True)
         if not ok:
             acc.violation(f'commute:{opn}:{ukey}', dict(case, op=opn), 'a op b and b op a are different physical spectra')
     acc.cls('commute')
@@ -243,7 +252,7 @@ def chk_unit_invariance(case, acc, seed):
         if len(pr[0]) == len(pb_[0]):
             ok = same_phys(pr, pb_, tol=1e-7)
         else:
-            ok = np.allclose(np.interp(pb_[0], pr[0], pr[1]), pb_[1], rtol=1e-6, atol=1e-9, equal_nan=True)
+            ok = ac(np.interp(pb_[0], pr[0], pr[1]), pb_[1], rtol=1e-6, atol=1e-9, equal_nan=True)
         if not ok:
             acc.violation(f'unit-invariance:{"density" if vu else "unitless"}', dict(case, units=[u1, u2]),
                           f'{opn} of operands given in ({u1}, {u2}) differs physically from the same operands given in nm')
@@ -267,7 +276,7 @@ def chk_same_numbers(case, acc, seed):
     g1, g2 = np.array(GRIDS['A'], float), np.array(GRIDS['Axum'], float)
     d = {'min': 50.0, 'left': 50.0, 'right': 50000.0}[sampling]
     step = np.diff(wr)
-    if not (abs(wr[0] - g1[0]) <= 1e-6 and abs(wr[-1] - g2[-1]) <= 1e-3 and len(wr) >= 3 and np.allclose(step, step[0], rtol=1e-6)
+    if not (abs(wr[0] - g1[0]) <= 1e-6 and abs(wr[-1] - g2[-1]) <= 1e-3 and len(wr) >= 3 and ac(step, step[0], rtol=1e-6)
             and step[0] <= d * (1 + 1e-9) and len(wr) - 1 in (int(np.ceil((g2[-1] - g1[0]) / d - 1e-9)), int(np.ceil((g2[-1] - g1[0]) / d - 1e-9)) + 1)):
         acc.violation('binary:same-numbers:grid', case,
                       f'operands with equal numbers in nm and um: result grid {wr[0]:.6g}..{wr[-1]:.6g} nm ({len(wr)} points) is not the union {g1[0]}..{g2[-1]} nm')
@@ -300,7 +309,7 @@ def chk_value_history(case, acc, seed):
         acc.violation(f'binary:stale-after-value-update:{method}', case, 'after `a.value = ...` the operation still uses the old values')
     s1 = a.sample(np.array([450.0, 475.0]), method=method)
     s2 = fresh.sample(np.array([450.0, 475.0]), method=method)
-    if not np.allclose(s1, s2, rtol=1e-12):
+    if not ac(s1, s2, rtol=1e-12):
         acc.violation(f'sample:stale-after-value-update:{method}', case, f'{s1} != {s2}')
     acc.cls('value-history')
     acc.case(case, outcome='value-history')
@@ -321,14 +330,14 @@ def chk_scalar(case, acc, seed):
     exp = NPOPS[opn](v0, np.asarray(other, dtype=float) if kind not in ('int', 'float') else other)
     if not np.array_equal(r.wave, w0) or r.waveunit != unit:
         acc.violation('scalar:grid-changed', case, 'wavelength grid changed')
-    if not np.allclose(r.value, exp, rtol=1e-12, equal_nan=True):
+    if not ac(r.value, exp, rtol=1e-12, equal_nan=True):
         acc.violation('scalar:value', case, f'{r.value} != {exp}')
     if r is a or not np.array_equal(a.value, v0) or not np.array_equal(a.wave, w0):
         acc.violation('scalar:operand-changed', case, 'operand changed / result is the operand')
     # operator form
     sym = {'add': '+', 'subtract': '-', 'multiply': '*', 'divide': '/', 'power': '**'}[opn]
     r2 = OPS[opn](a, other)
-    if not np.allclose(r2.value, exp, rtol=1e-12, equal_nan=True):
+    if not ac(r2.value, exp, rtol=1e-12, equal_nan=True):
         acc.violation('scalar:operator-form', case, f'a {sym} other differs from a.{opn}(other)')
     if kind in ('int', 'float', 'list', 'tuple'):
         # the operand on the left: either refused (TypeError) or the operator with the operands in that order
@@ -338,11 +347,11 @@ def chk_scalar(case, acc, seed):
             rl = None
         if rl is not None and hasattr(rl, 'value'):
             expl = NPOPS[opn](np.asarray(other, dtype=float) if kind not in ('int', 'float') else other, v0)
-            if not np.allclose(np.asarray(rl.value, float), expl, rtol=1e-12, equal_nan=True):
+            if not ac(np.asarray(rl.value, float), expl, rtol=1e-12, equal_nan=True):
                 acc.violation(f'scalar:reflected:{opn}', case, f'other {sym} spectrum = {np.asarray(rl.value)[:3]} but {sym} applied in that order gives {expl[:3]}')
     if opn == 'multiply' and kind in ('int', 'float'):
         r3 = other * a
-        if not np.allclose(r3.value, exp, rtol=1e-12):
+        if not ac(r3.value, exp, rtol=1e-12):
             acc.violation('scalar:rmul', case, 'other * a differs')
     acc.cls('scalar')
     acc.case(case, outcome='scalar')
@@ -411,7 +420,7 @@ def t_scalar(arg, acc):
 
 
 def run(tier, seed, acc, procs=None):
-    pairs = PAIRS if tier != 'quick' else PAIRS[:10]
+    pairs = PAIRS if tier != 'quick' else PAIRS[:11]
     tasks = [('t_pair', {'tier': tier, 'seed': seed, 'pair': list(p), 'op': o}) for p in pairs for o in OPS]
     tasks.append(('t_scalar', {'seed': seed}))
     acc.states += 1
